@@ -25,8 +25,15 @@ META_PART = (
     "operation sequences and all int/float/bool/object arguments about hand-written Gallina models of "
     "Led.py and RGBLed.py (exact order of checks and raise points); the extracted models are run against "
     "the real classes on exhaustive short sequences over a boundary alphabet from several seed states plus "
-    "seeded random sequences (length <= 15), comparing result, return value, every attribute, sleeps and "
-    "level events after every call."
+    "seeded random sequences (length <= 15, a few of 40..120), comparing result, return value, every attribute, sleeps and "
+    "level events after every call.  Calls whose arguments are DERIVED from the state they meet (coq/Host/RelArgs.v: the colour "
+    "shown, its neighbours, permutations, bool/float spellings) are generated as state-relative arguments, resolved against the "
+    "model state by the extracted model and against the public getters by the implementation runner; C19_rgb_blink_total "
+    "(acceptance of blink is a function of the arguments alone; an accepted blink returns exactly the object it met, original "
+    "colour written last), C19_rgb_blink_state_neutral / _history_neutral (no hypothesis on arguments or outcome), "
+    "C19_rgb_blink_own_colour, C19_rgb_fade_total (acceptance of fade: a float `steps` is accepted exactly when the one-step "
+    "shortcut applies - duration 0 or target == colour shown), C19_rgb_fade_own_colour, C19_rgb_fade_float_steps_elsewhere, "
+    "C19_rgb_set_color_own_colour, C19_rgb_relative_arguments are proved for every state satisfying the invariant."
 )
 
 LED_CODES = {"on": 0, "off": 1, "get_state": 2, "get_brightness": 3, "set_brightness": 4, "toggle": 5,
@@ -943,7 +950,7 @@ def run_unit(ctx: C.Ctx) -> dict:
                        "direct writes to the public attributes Led.state/brightness/pin",
                        "the real time.sleep (the package-level sleep is replaced by a recorder, as tests/test_actuators.py does)",
                        "steps below 1/4 in Led.fade_in/fade_out (loop length > 1100) are not generated"],
-        "trusted_base": ["harness/impl/c19_led_impl.py (drives the real classes, records sleep through Reduino.Actuators.sleep and levels by wrapping Led.set_brightness / RGBLed.set_color)",
+        "trusted_base": ["harness/impl/c19_led_impl.py (drives the real classes, records sleep through Reduino.Actuators.sleep and levels by wrapping Led.set_brightness / RGBLed.set_color; resolves state-relative arguments through get_color() / get_brightness() and reports the concrete arguments used - the replay of a failure holds those concrete arguments)",
                          "harness/props/c19_led.py (generators, value comparison with 1e-9 relative float tolerance, property oracle)"],
         "assumptions": ["floats sent are dyadic rationals with small denominators, so exact-rational and binary64 evaluation agree on every integer result (measured by the correspondence)",
                         "Led/RGBLed objects are only driven through their public methods"],
